@@ -23,7 +23,7 @@ ASSUMPTIONS = [
     "BEP 52 cannot tell a directory holding one same-named file from a single file: such trees are not generated",
 ]
 BUDGET = {
-    "quick": {"examples": 200, "workers": 8, "time_cap": 80},
+    "quick": {"examples": 300, "workers": 8, "time_cap": 80},
     "thorough": {"examples": 6000, "workers": 14, "time_cap": 900},
 }
 
